@@ -59,7 +59,7 @@ def main():
         f.write("guard: build tag `verif`\nhook commits in /repo (add-only files guarded by //go:build verif):\n" + "".join("  %s\n" % c for c in HOOK_COMMITS))
 
 
-HOOK_COMMITS = ["05dd841", "0b2e5de", "e5dff40", "36abfc4", "c28fa84", "494a26a"]
+HOOK_COMMITS = ["05dd841", "0b2e5de", "e5dff40", "36abfc4", "c28fa84", "494a26a", "310e231"]
 
 if __name__ == "__main__":
     main()
